@@ -147,7 +147,7 @@ func runEval(hdr Header, c any, src string) CaseResult {
 		if f := checkLoads(u, log, nil, src, c); f != nil {
 			res.Failures = append(res.Failures, *f)
 		}
-		if wantRes == "err" {
+		if wantRes == "err" || wantRes == "?" {
 			res.Nontrivial = true
 			res.Sample = map[string]any{"schema": u.concrete(), "expect": "Resolve error", "got": err.Error()}
 			return res
@@ -159,6 +159,19 @@ func runEval(hdr Header, c any, src string) CaseResult {
 	if wantRes == "err" {
 		res.Failures = append(res.Failures, Failure{Kind: "resolve", Source: src, Abstract: c, Concrete: u.concrete(),
 			Expected: "Resolve returns an error", Got: "nil error"})
+		return res
+	}
+	if wantRes == "?" {
+		// no prediction at all (families outside every property's reading of the documents): every call is still made -
+		// it has to come back with a value or an error (the runner observes panics and hangs)
+		for _, in := range insts {
+			var inst any
+			json.Unmarshal([]byte(abs.ValueJSON(in)), &inst)
+			res.Evals++
+			rs.Validate(inst)
+		}
+		res.Nontrivial = true
+		res.Sample = map[string]any{"schema": u.concrete(), "expect": "a result (no prediction)"}
 		return res
 	}
 	if f := checkLoads(u, log, cm, src, c); f != nil {
